@@ -375,6 +375,24 @@ func c13Batches(depth int) [][]op {
 		}
 	}
 	gen(nil)
+	// All same-key triples (remove/re-insert/overwrite chains on one key) even at depth 2.
+	if depth < 3 {
+		for _, k := range [][]byte{{0x00}, {0x80}} {
+			var ls []op
+			for _, l := range letters {
+				if bytes.Equal(l.Key, k) {
+					ls = append(ls, l)
+				}
+			}
+			for _, a := range ls {
+				for _, b := range ls {
+					for _, c := range ls {
+						out = append(out, []op{a, b, c})
+					}
+				}
+			}
+		}
+	}
 	return out
 }
 
